@@ -1,21 +1,85 @@
 """C08 - reported statistics obey their defining formulas."""
-CONTRACT_MODULES = ['results']
+CONTRACT_MODULES = ['results', 'c08_lrtest', 'c08_tables']
 LEVEL = 'proof'
 TRUSTED = ['pyvc (VC generator, Python semantics of the stated subset)', 'z3 5.1.0',
-           'LIBSPEC: numpy/scipy members are pure uninterpreted functions']
+           'LIBSPEC: numpy/scipy members are pure uninterpreted functions (incl. scipy.stats.chi2.ppf)',
+           'static label->quantity analysis of the pandas table builders (specs/c08_static.py): pandas semantics of '
+           '`frame.loc[row] = Series(dict)`, `frame.loc[row, column] = v`, `frame.at[row, column] = v` (a cell holds the value stored under its labels)',
+           'assumed contract: bioResults.number_of_free_parameters is pure (compared natively in bounded/c08_tables.py)']
 ASSUMPTIONS = ['A-REAL: floats are mathematical reals']
-EXPLANATION = 'Contracts on the real functions of results.py; every obligation regenerated from the current AST.'
-REPLAYS = {}
+EXPLANATION = ('Contracts on the real functions of results.py and tools/likelihood_ratio.py; every obligation regenerated from the current AST. '
+               'Tabular views: get_general_statistics is proved label by label; the pandas-based views (get_estimated_parameters, '
+               'get_correlation_results, get_*_var_covar, compile_estimation_results, compile_results_in_directory) and the pairwise record of '
+               '_calculate_stats are decided by one static obligation per label (AST dataflow label -> quantity) and, independently, by bounded '
+               'stand-ins that compare every cell of every table with the raw fields on the real code.')
+REPLAYS = {'*': '''
+# replay of a static / assumed obligation of C08: every cell of the view against the raw fields, on the real code
+import sys, warnings, logging
+warnings.simplefilter('ignore')
+logging.disable(logging.CRITICAL)
+sys.path.insert(0, '/verif/bounded')
+import c08_tables, c08_native
+ob = payload.get('obligation', '')
+match = ''
+if ':compile_estimation_results:' in ob:
+    n, bad = c08_tables.run_compiled(cases=3, seed=0, directory='directory' in ob)
+    for key, m in (('unformatted:(std)', 'unformatted:(std)'), ('unformatted:(ttest)', 'unformatted:(ttest)'), ('unformatted:value', 'unformatted:value'),
+                   ('formatted:', 'compile:formatted'), ('statistics-row', 'compile:statistic'), ('directory', '')):
+        if key in ob:
+            match = m
+            break
+elif ':_calculate_stats:' in ob:
+    n, bad = c08_native.run(cases=24, seed=0)
+    bad = [{'check': 'secondOrderTable', 'case': b} for b in bad]
+else:
+    n, bad = c08_tables.run_views(cases=8, seed=0)
+    for key, m in (('get_estimated_parameters', 'estimated_parameters'), ('get_correlation_results', 'correlation_results'),
+                   ('get_var_covar', 'get_var_covar'), ('get_robust_var_covar', 'get_robust_var_covar'),
+                   ('get_bootstrap_var_covar', 'get_bootstrap_var_covar')):
+        if ':' + key + ':' in ob:
+            match = m
+bad = [f for f in bad if match in str(f.get('check'))]
+violated = bool(bad)
+detail = f'{n} cells compared with the raw fields; first mismatch: {bad[0] if bad else None}'
+'''}
 LEVEL_TEXT = ('Deductive proof per function against sidecar contracts: every obligation (post, frame, safety, loop invariant) is generated '
-              'from the current AST of results.py and discharged by z3 for all inputs; numpy/scipy routines are uninterpreted, so what is proved '
-              'is which formula is applied to which input in each family.')
-LEVEL_NOTE = 'Trusted: pyvc and its Python semantics, z3; LIBSPEC (numpy/scipy members pure and uninterpreted); floats as reals (A-REAL).'
-TECHNIQUE = 'contract-based deductive verification (AST -> VCs -> z3/cvc5)'
+              'from the current AST of results.py / tools/likelihood_ratio.py and discharged by z3 for all inputs; numpy/scipy routines are '
+              'uninterpreted, so what is proved is which formula is applied to which input in each family. The pandas-based tables are decided by '
+              'static obligations over the real AST (one per label: the cell expression is the quantity the label names), which hold for all inputs '
+              'given the trusted pandas cell semantics; bounded stand-ins re-check every cell natively and are never counted as proved.')
+LEVEL_NOTE = ('Trusted: pyvc and its Python semantics, z3; LIBSPEC (numpy/scipy members pure and uninterpreted); floats as reals (A-REAL); '
+              'pandas cell-store semantics for the static table obligations.')
+TECHNIQUE = 'contract-based deductive verification (AST -> VCs -> z3/cvc5) + AST label->quantity analysis + bounded stand-ins on the real code'
 DESIGN_REF = 'DESIGN.md section 3 / C08'
 
 
 def extra(tier, seed):
+    import time
     from pyvc.bounded import run_native
+    from pyvc.driver import Extra
+    from pyvc.repo import get_repo
+    from specs import c08_static
     cases = 12 if tier == 'quick' else 200
-    return [run_native('C08:bounded:native-recomputation', 'c08_native.py', [str(cases), str(seed)],
-                       bound=f'{cases} generated raw outcomes, K in 1..4, with/without null likelihood and bootstrap, singular Hessians')]
+    out = [run_native('C08:bounded:native-recomputation', 'c08_native.py', [str(cases), str(seed)],
+                      bound=f'{cases} generated raw outcomes, K in 1..4, with/without null likelihood and bootstrap, singular Hessians')]
+    # tabular views: one static obligation per label (label -> quantity on the real AST)
+    t0 = time.time()
+    checks = c08_static.all_checks(get_repo())
+    dt = round((time.time() - t0) / max(1, len(checks)), 4)
+    for name, status, detail, _group in checks:
+        out.append(Extra(f'C08:static:{name}', 'static', status, 'ast-static', dt, detail,
+                         None if status == 'discharged' else {'detail': detail}))
+    # ... and every cell of every table against the raw fields, natively
+    quick = tier == 'quick'
+    nv, nc, nl = (8, 3, 6) if quick else (60, 24, 100)
+    out.append(run_native('C08:bounded:tabular-views', 'c08_tables.py', ['views', str(nv), str(seed)],
+                          bound=f'{nv} generated results objects x (sentinel fields, computed fields), K in 1..4, with/without bootstrap, null '
+                                'likelihood, active bounds, Monte-Carlo rows: every cell of get_estimated_parameters (only_robust True/False), '
+                                'get_correlation_results (all / subsets), get_general_statistics (+ printed form), get_var_covar / robust / bootstrap'))
+    out.append(run_native('C08:bounded:compiled-tables', 'c08_tables.py', ['compiled', str(nc), str(seed)],
+                          bound=f'{nc} triples of models (K in 1..3, different parameter sets) x 16 combinations of formatted / include_robust_stderr / '
+                                'include_robust_ttest / use_short_names, two statistics lists; compile_results_in_directory on 2 pickled models x 6 combinations'))
+    out.append(run_native('C08:bounded:likelihood-ratio-test', 'c08_tables.py', ['lrtest', str(nl), str(seed)],
+                          bound=f'4 fixed + {nl} random pairs (L in -500..-50, K in 1..14) x both argument orders x 3 significance levels, function and '
+                                'bioResults method, against scipy chi2; ties in L or K excluded (decided deductively)'))
+    return out
